@@ -119,6 +119,9 @@ type pdfInterp struct {
 	path  pb
 	opnd  []string
 	ext   func() map[string][2]float64
+	// resource resolution of the page (nil: not checked)
+	hasPattern func(string) bool
+	hasXObject func(string) bool
 }
 
 func newPDFInterp(ext func() map[string][2]float64) *pdfInterp {
@@ -274,6 +277,9 @@ func (in *pdfInterp) run(b []byte) []item {
 			}
 			pv := paintVal{isGrad: true, grad: in.opnd[len(in.opnd)-1][1:]}
 			in.opnd = nil
+			if in.hasPattern != nil && !in.hasPattern(pv.grad) {
+				items = append(items, item{kind: "invalid", why: "undefined resource: pattern /" + pv.grad + " is not in the page's /Resources /Pattern"})
+			}
 			if t == "scn" {
 				in.gs.fill, setFill = pv, true
 			} else {
@@ -312,6 +318,26 @@ func (in *pdfInterp) run(b []byte) []item {
 			in.path.cubeTo(in.dev(v[0], v[1]), in.dev(v[2], v[3]), in.dev(v[4], v[5]))
 		case "h":
 			in.path.close()
+		case "W", "W*":
+			// clipping path: set by the following path-painting operator (here always n); not applied to geometry
+		case "Do":
+			if len(in.opnd) == 0 || !strings.HasPrefix(in.opnd[len(in.opnd)-1], "/") {
+				bad("Do operand")
+				continue
+			}
+			name := in.opnd[len(in.opnd)-1][1:]
+			in.opnd = nil
+			if in.hasXObject != nil && !in.hasXObject(name) {
+				bad("undefined resource: XObject /" + name + " is not in the page's /Resources /XObject")
+				continue
+			}
+			var b pb // image space is the unit square
+			b.moveTo(in.dev(0, 0))
+			b.lineTo(in.dev(1, 0))
+			b.lineTo(in.dev(1, 1))
+			b.lineTo(in.dev(0, 1))
+			b.close()
+			items = append(items, item{kind: "image", segs: b.segs, alpha: in.gs.ca, why: name})
 		case "re":
 			v, ok := in.nums(4)
 			if !ok {
